@@ -7,6 +7,10 @@ def _wrap(module):
     def generate(rng, count):
         for pair in module.generate(rng, count):
             yield pair.label, pair.obj
+        if hasattr(module, 'objects_only'):
+            for _ in range(max(1, count // 10)):
+                for label, obj in module.objects_only(rng):
+                    yield label, obj
     return generate
 
 
